@@ -21,6 +21,8 @@ CONSTANTS Threads,         \* 1..NT
           LoadsOpts,       \* set of workloads  Threads -> Seq(Keys): top-level loads of each thread, in order
           SharedOpts,      \* subset of BOOLEAN: one resolver shared by all threads / one per thread
           CacheOpts,       \* subset of BOOLEAN: object cache on / off (the cache always belongs to the document)
+          MaxRepeats,      \* bound on the loads of one outermost load that repeat a key it has loaded already (file.rs count_load;
+                           \* 2^16 in the library, lowered through the verification hook for the replay)
           DirectKeys,      \* keys that are reached as a *direct* typed entry given by reference (Resolve::with_loading:
                            \* on the guard's list while being decoded, never through the cache); leaves, never loaded top-level
           Dev
@@ -32,11 +34,13 @@ VARIABLES conf,      \* configuration [deps, loads, shared, cacheOn], chosen in 
           cache,     \* Keys -> "absent" | "inproc" | "ok" | "err"
           results,   \* Threads -> Seq of "ok" | "err"
           panicked,  \* a thread panicked (the chain mutex is poisoned from then on)
+          seenk,     \* Threads -> set of keys loaded since the thread's current outermost load began
+          reps,      \* Threads -> number of loads that repeated one of them
           gorder,    \* order of the entries <<t, k>> in the one list of a shared resolver (only kept for the deviation
                      \* "loading_pops_last", <<>> otherwise: the per-thread view `chain` is all the design needs)
           sched      \* history: sequence of thread ids (hidden by VIEW in cover mode)
 
-mvars == <<conf, stack, nxt, chain, cache, results, panicked, gorder>>
+mvars == <<conf, stack, nxt, chain, cache, results, panicked, gorder, seenk, reps>>
 
 Deps == conf.deps
 Loads == conf.loads
@@ -58,6 +62,14 @@ SeqAnswer(k) == IF ReachesCycle(k, {}) THEN "err" ELSE "ok"
 ChainIds == Threads \cup {0}
 ChainOf(t) == IF "shared_chain" \in Dev /\ SharedResolver THEN 0 ELSE t
 NewFrame(k) == [key |-> k, pc |-> IF k \in DirectKeys THEN "lguard" ELSE "guard", i |-> 0, res |-> "none", rc |-> FALSE]   \* rc: recomputing after a cached error
+\* file.rs count_load: is this load the outermost one of its thread?  (deviation "budget_reset_needs_idle_resolver": only if no
+\* thread at all has a load in progress on the resolver - the counters of a thread then run on across its top-level loads
+\* while another thread is busy)
+Outermost(t) == IF "budget_reset_needs_idle_resolver" \in Dev /\ SharedResolver
+                THEN \A u \in Threads : chain[ChainOf(u)] = <<>>
+                ELSE chain[ChainOf(t)] = <<>>
+SeenAfter(t, k) == IF Outermost(t) THEN {k} ELSE seenk[t] \cup {k}
+RepsAfter(t, k) == IF Outermost(t) THEN 0 ELSE IF k \in seenk[t] THEN reps[t] + 1 ELSE reps[t]
 \* the shared list in its real order (deviation only)
 TrackOrder == "loading_pops_last" \in Dev /\ SharedResolver
 RemoveLast(s, x) == LET J == {j \in 1..Len(s) : s[j] = x} IN
@@ -127,34 +139,40 @@ GuardEnter(t) ==
   /\ LET k == Top(t).key  c == ChainOf(t) IN
      IF InSeq(k, chain[c])
      THEN /\ Return(t, "err")
-          /\ UNCHANGED <<chain, cache, panicked, gorder>>
-     ELSE /\ chain' = [chain EXCEPT ![c] = Append(@, k)]
-          /\ gorder' = IF TrackOrder THEN Append(gorder, <<t, k>>) ELSE gorder
-          /\ stack' = SetTop(t, [Top(t) EXCEPT !.pc = "cache"])
-          /\ UNCHANGED <<nxt, cache, results, panicked>>
+          /\ UNCHANGED <<chain, cache, panicked, gorder, seenk, reps>>
+     ELSE /\ seenk' = [seenk EXCEPT ![t] = SeenAfter(t, k)]
+          /\ reps' = [reps EXCEPT ![t] = RepsAfter(t, k)]
+          /\ IF RepsAfter(t, k) > MaxRepeats
+             THEN \* the bound on repeated loads: an error, nothing is pushed
+                  /\ Return(t, "err")
+                  /\ UNCHANGED <<chain, cache, panicked, gorder>>
+             ELSE /\ chain' = [chain EXCEPT ![c] = Append(@, k)]
+                  /\ gorder' = IF TrackOrder THEN Append(gorder, <<t, k>>) ELSE gorder
+                  /\ stack' = SetTop(t, [Top(t) EXCEPT !.pc = "cache"])
+                  /\ UNCHANGED <<nxt, cache, results, panicked>>
 
 \* Cache::get_or_compute under the cache mutex: hit / wait / mark in-process and compute
 CacheEnter(t) ==
   /\ Top(t).pc = "cache"
   /\ LET k == Top(t).key IN
      IF ~CacheOn
-     THEN StartCompute(t) /\ UNCHANGED <<nxt, chain, cache, results, panicked, gorder>>
+     THEN StartCompute(t) /\ UNCHANGED <<nxt, chain, cache, results, panicked, gorder, seenk, reps>>
      ELSE CASE cache[k] = "absent" ->
                  /\ cache' = [cache EXCEPT ![k] = "inproc"]
                  /\ StartCompute(t)
-                 /\ UNCHANGED <<nxt, chain, results, panicked, gorder>>
+                 /\ UNCHANGED <<nxt, chain, results, panicked, gorder, seenk, reps>>
             [] cache[k] = "ok" ->
                  /\ stack' = SetTop(t, [Top(t) EXCEPT !.res = "ok", !.pc = "exit"])
-                 /\ UNCHANGED <<nxt, chain, cache, results, panicked, gorder>>
+                 /\ UNCHANGED <<nxt, chain, cache, results, panicked, gorder, seenk, reps>>
             [] cache[k] = "err" ->
                  /\ Recompute(t)
-                 /\ UNCHANGED <<nxt, chain, cache, results, panicked, gorder>>
+                 /\ UNCHANGED <<nxt, chain, cache, results, panicked, gorder, seenk, reps>>
             [] cache[k] = "inproc" ->
                  /\ IF "cache_wait_unbounded" \notin Dev /\ WaitReaches(Owner(k), t, Cardinality(Threads) + 1)
                     THEN \* intended design: a wait that would close a cycle of waiting threads is refused
                          stack' = SetTop(t, [Top(t) EXCEPT !.res = "err", !.pc = "exit"])
                     ELSE stack' = SetTop(t, [Top(t) EXCEPT !.pc = "blocked"])     \* waits on the condvar
-                 /\ UNCHANGED <<nxt, chain, cache, results, panicked, gorder>>
+                 /\ UNCHANGED <<nxt, chain, cache, results, panicked, gorder, seenk, reps>>
 
 \* the waiting thread is notified and finds the computed value
 Wake(t) ==
@@ -163,14 +181,14 @@ Wake(t) ==
   /\ IF cache[Top(t).key] = "ok"
      THEN stack' = SetTop(t, [Top(t) EXCEPT !.res = "ok", !.pc = "exit"])
      ELSE Recompute(t)
-  /\ UNCHANGED <<nxt, chain, cache, results, panicked, gorder>>
+  /\ UNCHANGED <<nxt, chain, cache, results, panicked, gorder, seenk, reps>>
 
 \* store the computed value, notify_all
 CachePublish(t) ==
   /\ Top(t).pc = "publish"
   /\ cache' = [cache EXCEPT ![Top(t).key] = Top(t).res]
   /\ stack' = SetTop(t, [Top(t) EXCEPT !.pc = "exit"])
-  /\ UNCHANGED <<nxt, chain, results, panicked, gorder>>
+  /\ UNCHANGED <<nxt, chain, results, panicked, gorder, seenk, reps>>
 
 \* drop guard: lock chain; remove this load's entry
 GuardExit(t) ==
@@ -180,7 +198,7 @@ GuardExit(t) ==
      /\ UNCHANGED panicked
      /\ gorder' = IF TrackOrder THEN RemoveLast(gorder, <<t, k>>) ELSE gorder
      /\ Return(t, Top(t).res)
-     /\ UNCHANGED cache
+     /\ UNCHANGED <<cache, seenk, reps>>
 
 \* file.rs with_loading (a direct typed entry given by reference is decoded): lock the list; contains => Err("Recursive
 \* reference"); else push.  The decoding of the (leaf) value follows in the same step, up to the yield point before the exit.
@@ -189,11 +207,16 @@ LoadEnter(t) ==
   /\ LET k == Top(t).key  c == ChainOf(t) IN
      IF InSeq(k, chain[c])
      THEN /\ Return(t, "err")
-          /\ UNCHANGED <<chain, cache, panicked, gorder>>
-     ELSE /\ chain' = [chain EXCEPT ![c] = Append(@, k)]
-          /\ gorder' = IF TrackOrder THEN Append(gorder, <<t, k>>) ELSE gorder
-          /\ stack' = SetTop(t, [Top(t) EXCEPT !.res = "ok", !.pc = "lexit"])
-          /\ UNCHANGED <<nxt, cache, results, panicked>>
+          /\ UNCHANGED <<chain, cache, panicked, gorder, seenk, reps>>
+     ELSE /\ seenk' = [seenk EXCEPT ![t] = SeenAfter(t, k)]
+          /\ reps' = [reps EXCEPT ![t] = RepsAfter(t, k)]
+          /\ IF RepsAfter(t, k) > MaxRepeats
+             THEN /\ Return(t, "err")
+                  /\ UNCHANGED <<chain, cache, panicked, gorder>>
+             ELSE /\ chain' = [chain EXCEPT ![c] = Append(@, k)]
+                  /\ gorder' = IF TrackOrder THEN Append(gorder, <<t, k>>) ELSE gorder
+                  /\ stack' = SetTop(t, [Top(t) EXCEPT !.res = "ok", !.pc = "lexit"])
+                  /\ UNCHANGED <<nxt, cache, results, panicked>>
 
 \* with_loading's exit: lock the list; remove this thread's own entry for the key
 \* (deviation "loading_pops_last": pop whatever entry is last in the shared list)
@@ -207,7 +230,7 @@ LoadExit(t) ==
         ELSE /\ chain' = [chain EXCEPT ![c] = RemoveLast(@, k)]
              /\ UNCHANGED gorder
      /\ Return(t, Top(t).res)
-     /\ UNCHANGED <<cache, panicked>>
+     /\ UNCHANGED <<cache, panicked, seenk, reps>>
 
 Enabled(t) ==
   /\ stack[t] # <<>>
@@ -240,6 +263,7 @@ Init ==
   /\ results = [t \in Threads |-> <<>>]
   /\ panicked = FALSE
   /\ gorder = <<>>
+  /\ seenk = [t \in Threads |-> {}] /\ reps = [t \in Threads |-> 0]
   /\ sched = <<>>
 
 Pre(t) == stack[t] # <<>> /\ ~panicked
